@@ -6,6 +6,7 @@ CONSTANTS Pkgs <- P2
  Under <- UnderRoot2
  RootPkg = "p"
  HashCoversSum = FALSE
+ SkipUnknown = FALSE
  SaveAlways = TRUE
  KeepAfterDefers = TRUE
  BehChoices <- Beh2Small
